@@ -303,6 +303,11 @@ def fam_array(tier, seed):
             for j, (kind, w, lo, K, stride, explicit, syntax) in enumerate(chunk):
                 f = _elem_field(kind, w, lo, arr(K, stride if explicit else None, w, syntax), enums)
                 f["name"] = "a%d" % j
+                # a read-only and a write-only array among the writable ones (per-struct tables indexed by field number)
+                if len(chunk) > 3 and j % 6 == 1:
+                    f["access"] = "r"
+                elif len(chunk) > 3 and j % 6 == 4:
+                    f["access"] = "w"
                 fields.append(f)
                 if f["tyref"]:
                     helpers[f["tyref"]] = enums[(kind, w)]
@@ -578,6 +583,45 @@ def fam_enum(tier, seed):
         ds = list(range(1 << bits))
         random.Random(bits).shuffle(ds)
         add(make_enum("E", bits, ds, "true", radix="hex"), tags=["exhaustive", "shuffled"])
+    # structured declaration orders of exhaustive enums: sorted inside blocks of 2 / 4 with the blocks out of order, one transposition of
+    # neighbours / of distant entries in an otherwise ascending list, rotation by one, reversal
+    for bits in (2, 3, 4, 6):
+        space = 1 << bits
+        asc = list(range(space))
+        orders = []
+        for blk in (2, 4):
+            if blk < space:
+                blocks = [asc[k:k + blk] for k in range(0, space, blk)]
+                orders.append(blocks[0] + [x for b in reversed(blocks[1:]) for x in b])        # starts at 0, block-sorted
+                orders.append([x for b in reversed(blocks) for x in b])
+                inter = [asc[k] for k in range(0, space, 2)] + [asc[k] for k in range(1, space, 2)]   # evens then odds
+                orders.append(inter)
+                pairs = list(zip(asc[:space // 2], asc[space // 2:]))                        # (0, h), (1, h+1), ...: every pair ascending
+                orders.append([x for pr in pairs for x in pr])
+        t = list(asc); t[1], t[2] = t[2], t[1]; orders.append(t)
+        t = list(asc); t[-2], t[-1] = t[-1], t[-2]; orders.append(t)
+        t = list(asc); t[1], t[-2] = t[-2], t[1]; orders.append(t)
+        orders.append(asc[1:] + asc[:1])
+        orders.append(asc[-1:] + asc[:-1])
+        orders.append(list(reversed(asc)))
+        seen_o = set()
+        for o in orders:
+            if tuple(o) in seen_o or o == asc:
+                continue
+            seen_o.add(tuple(o))
+            add(make_enum("E", bits, o, "true"), tags=["exhaustive", "structured-order"])
+    # the largest discriminant is 2^k - 1, 2^k or 2^k + 1 (bit-length shortcuts), alone and next to small ones
+    for bits in (3, 5, 8, 9, 10, 12, 16, 17, 20, 24, 32, 33, 40, 48, 63, 64):
+        for k in sorted({1, 3, bits // 2, bits - 1}):
+            if k >= bits or k < 1:
+                continue
+            top = 1 << k
+            add(make_enum("E", bits, [0, 5 % top, top] if top > 5 else [0, top], "false", radix="hex"), tags=["nonexh", "pow2-max"])
+            if k in (bits - 1, bits // 2):
+                add(make_enum("E", bits, [top], None), tags=["nonexh", "pow2-max"])
+                add(make_enum("E", bits, sorted({1, top - 1}), "false", radix="hex"), tags=["nonexh", "pow2-max"])
+                if top + 1 < (1 << bits):
+                    add(make_enum("E", bits, [top + 1, 2], "false", radix="hex"), tags=["nonexh", "pow2-max"])
     # non-exhaustive over every width 1..64: {0, max}, singleton, few
     for bits in range(1, 65):
         space = 1 << bits
@@ -640,6 +684,22 @@ def fam_enum(tier, seed):
     add(e, tags=["conditional", "over-listed"])
     e = make_enum("E", 2, [0, 1, 1, 2, 3], "conditional", cfg=[None, False, True, None, None], names=["A", "B_off", "B_on", "C", "D"])
     add(e, tags=["conditional", "over-listed"])
+    # several cfg attributes on one variant: it exists only when all of them hold
+    for bits, exh in ((2, "conditional"), (3, "conditional"), (2, "false"), (9, None)):
+        e_ = make_enum("E", bits, [0, 1, 2, 3], exh, cfg=[None, False, False, True], names=["A", "B", "C", "D"])
+        e_["variants"][1] = dict(e_["variants"][1], pre_attrs=["#[cfg(all())]"])                  # true then false -> absent
+        e_["variants"][2] = dict(e_["variants"][2], post_attrs=["#[cfg(all())]"])                 # false then true -> absent
+        e_["variants"][3] = dict(e_["variants"][3], pre_attrs=["#[cfg(all())]"], post_attrs=["#[cfg(not(any()))]"])   # three true ones -> present
+        if exh != "conditional":
+            # only conditional enums may carry cfg attributes: keep the attribute stack on an otherwise plain enum out of this shape
+            continue
+        add(e_, tags=["conditional", "stacked-cfg"])
+    # conditional enums listing exactly 2^N variants of which one is compiled out
+    for bits in (1, 2, 3):
+        space = 1 << bits
+        for gone in sorted({0, space - 1, space // 2}):
+            cfgs = [False if d == gone else (True if d % 2 else None) for d in range(space)]
+            add(make_enum("E", bits, list(range(space)), "conditional", cfg=cfgs), tags=["conditional", "exactly-2^N-listed"])
     # conditional without any cfg attribute, fully listed
     add(make_enum("E", 2, [0, 1, 2, 3], "conditional"), tags=["conditional", "fully-listed"])
     if tier == "thorough":
@@ -748,6 +808,15 @@ def fam_custom(tier, seed):
                     fields.append(enum_field("x", [(1, w - 1), (base - 1, base - 1)], e))
                     if 2 * (w + 1) <= base and w >= 2:
                         fields.append(enum_field("x", [(1, w - 1), (0, 0)], e, array=arr(2, w)))
+            if 2 <= w <= 8 and 2 * w <= base:
+                for e in helpers:
+                    # [0, 2, 4, ..] stride 1 (bit interleave) and two half-elements interleaved blockwise (stride = w / 2)
+                    fields.append(enum_field("x", [(2 * b, 2 * b) for b in range(w)], e, array=arr(2, 1)))
+                    top = base - 2 * w
+                    fields.append(enum_field("x", [(top + 2 * b, top + 2 * b) for b in reversed(range(w))], e, array=arr(2, 1)))
+                    if w % 2 == 0:
+                        h = w // 2
+                        fields.append(enum_field("x", [(0, h - 1), (w, w + h - 1)], e, array=arr(2, h)))
             if fields:
                 add(base, fields, helpers)
     # nested bitfields: native and arbitrary inner bases, incl. 1 bit, full width, 128
@@ -764,6 +833,10 @@ def fam_custom(tier, seed):
                 fields.append(nested_field("x", [(base - 2 * iw, base - iw - 1)], inner, array=arr(2, iw)))
             if iw >= 2 and iw < base:
                 fields.append(nested_field("x", [(base - 1, base - 1), (0, iw - 2)], inner))
+            if iw in (2, 8, 16) and 2 * iw <= base:
+                h = iw // 2
+                fields.append(nested_field("x", [(0, h - 1), (iw, iw + h - 1)], inner, array=arr(2, h)))
+                fields.append(nested_field("x", [(2 * b, 2 * b) for b in range(iw)], inner, array=arr(2, 1), access="w"))
             add(base, fields, [inner])
     # seeded random
     for _ in range(40 if tier == "quick" else 400):
@@ -991,6 +1064,31 @@ def handwritten_mixed():
     out.append(bitfield_case("mh_long33", "mixed", 128, [uint_field("even", [(2 * b, 2 * b) for b in range(33)], array=arr(2, 1))], name="Reg"))
     out.append(bitfield_case("mh_long40", "mixed", 128, [uint_field("mix", [(b * 3, b * 3 + (b % 2)) for b in range(40)]), bool_field("top", 127)], default=default_spec(0), name="Reg"))
     out.append(bitfield_case("mh_long128", "mixed", 128, [uint_field("rev", [(b, b) for b in reversed(range(128))], access="rw")], name="Reg"))
+    # field names: upper case, and names that begin like generated method names
+    nm = [uint_field("IRQ_EN", [(0, 3)]), bool_field("TxData", 4), uint_field("set_point", [(5, 6)]), uint_field("with_parity", [(7, 8)]), bool_field("get_x", 9, access="r"),
+          uint_field("set_only", [(10, 11)], access="w"), uint_field("with_", [(12, 13)], array=arr(2, None, 2)), sint_field("Set_Mixed", [(16, 23)]), uint_field("new_with", [(24, 26)], access="r"),
+          bool_field("builder_", 27), bool_field("raw_value_", 28, access="w"), uint_field("X", [(29, 29), (31, 31)])]
+    out.append(bitfield_case("mh_names2", "mixed", 32, nm, default=default_spec(0x0F0F_0F0F), name="Reg"))
+    out.append(bitfield_case("mh_names3", "mixed", 24, [dict(f) for f in nm if f["ranges"][-1][1] < 24 and "w" in f["access"]], name="Reg"))
+    # the user's own attributes on the struct (the macro adds its own repr/derives next to them)
+    for k, extra in enumerate((["#[repr(C)]"], ["#[repr(align(1))]"], ["#[derive(PartialEq, Eq, Hash)]", "#[repr(C)]"], ["#[allow(dead_code)]", "#[cfg_attr(all(), allow(unused))]"], ["#[repr(C)]"])):
+        base = (32, 8, 24, 128, 100)[k]
+        c = bitfield_case("mh_uattr%d" % k, "mixed", base, [uint_field("a", [(0, 3)]), bool_field("b", base - 1, access=("rw", "r")[k % 2])], default=(default_spec(5, form=("lit", "const")[k % 2]) if k != 1 else None), name="Reg", debug=(k == 3))
+        c["extra_attrs"] = extra
+        out.append(c)
+    # declarations that reach the attribute macro through a macro_rules! macro: base type and default arrive as `ty` / `expr` / `literal` fragments
+    for k, (base, dform, frag, syntax) in enumerate(((32, "const", "expr", "="), (24, "const", "expr", ":"), (16, "lit", "expr", "="), (64, "lit", "literal", ":"), (128, "const", "expr", "="), (9, "const", "ident", "="))):
+        c = bitfield_case("mh_viam%d" % k, "mixed", base, [uint_field("a", [(0, 3)]), bool_field("b", base - 1)], default=default_spec((0xA5A5 << 3 | 1) & ((1 << base) - 1), form=dform, syntax=syntax), name="Reg")
+        c["via_macro"] = frag
+        out.append(c)
+    # a signed field that is the whole storage integer (readable, writable, both), on every native base
+    for b in (8, 16, 32, 64, 128):
+        for acc in ("rw", "r", "w"):
+            out.append(bitfield_case("mh_sfw%d%s" % (b, acc), "mixed", b, [sint_field("all", [(0, b - 1)], access=acc)], name="Reg", default=(default_spec(1 << (b - 1)) if acc != "rw" else None), debug=(acc == "r")))
+    # no fields at all
+    out.append(bitfield_case("mh_empty0", "mixed", 32, [], name="Reg"))
+    out.append(bitfield_case("mh_empty1", "mixed", 8, [], name="Reg", debug=True, default=default_spec(3)))
+    out.append(bitfield_case("mh_empty2", "mixed", 100, [], name="Reg", debug=True))
     # one-bit fields spelled as a range (lo == hi)
     f1 = uint_field("x", [(3, 3)])
     f1["form"] = "bits"
@@ -1052,6 +1150,26 @@ def fam_bld(tier, seed):
             ones = (1 << base) - 1
             cases.append(bitfield_case("bg_%04d" % n, "bld", base, [f], default=default_spec(ones), name="Reg"))
             n += 1
+        # lowest-to-highest extents of the writable fields add up to the base width, yet holes remain that keep the default's bits
+        if base >= 16:
+            ones = (1 << base) - 1
+            q = max(1, base // 8)
+            for dv in (ones, rng0.getrandbits(base) | (1 << (base // 2)), 0):
+                cases.append(bitfield_case("bh_%04d" % n, "bld", base, [uint_field("split", [(0, q - 1), (base - q, base - 1)])], default=default_spec(dv), name="Reg"))
+                n += 1
+            if base % 8 == 0:
+                K = base // 8
+                cases.append(bitfield_case("bh_%04d" % n, "bld", base, [uint_field("nib", [(0, 3)], array=arr(K, 8)), uint_field("top", [(base - 4, base - 1)], access="w")], default=default_spec(ones), name="Reg"))
+                n += 1
+            cases.append(bitfield_case("bh_%04d" % n, "bld", base, [uint_field("split", [(0, q - 1), (base - q, base - 1)]), uint_field("status", [(q, base - q - 1)], access="r")],
+                                       default=default_spec(rng0.getrandbits(base) | 1 << q), name="Reg"))
+            n += 1
+        # write-only flags and a strobe next to a default (every writable field, whatever its kind, is a builder step)
+        if base >= 8:
+            cases.append(bitfield_case("bw_%04d" % n, "bld", base, [bool_field("strobe", 0, access="w"), uint_field("u1w", [(1, 1)], access="w"), bool_field("rwb", 2), bool_field("many", 3, access="w", array=arr(3, None, 1)),
+                                                                     sint_field("s", [(base - 8, base - 1)], access="w") if base >= 16 else bool_field("last", 7, access="w")],
+                                       default=default_spec(1 << (base - 1)), name="Reg"))
+            n += 1
         # list fields: swapped halves (complete), bit reversal of the low byte + default
         if base >= 2:
             h = base // 2
@@ -1103,6 +1221,16 @@ def fam_dbgf(tier, seed):
     n += 1
     cases.append(bitfield_case("dw_%04d" % n, "dbgf", 32, [uint_field("type_", [(0, 3)]), bool_field("loop_", 4), uint_field("_reserved", [(5, 6)], access="r"), uint_field("self_", [(7, 8)]), uint_field("__", [(9, 12)]),
                                                           uint_field("mode_", [(13, 14)]), uint_field("_", [(15, 16)]) if False else uint_field("a_", [(15, 16)])], debug=True, name="Names"))
+    n += 1
+    # a single field of a custom type that is the whole bitfield (a "newtype" in shape, still printed as a struct with a named field)
+    for base, kind in ((8, "nested"), (16, "nested"), (8, "enum"), (16, "optenum"), (2, "enum"), (24, "nested"), (3, "optenum"), (128, "nested")):
+        h = nested_def("In", base) if kind == "nested" else std_enum("Ex", base, kind == "enum")
+        f = nested_field("inner", [(0, base - 1)], h) if kind == "nested" else enum_field("inner", [(0, base - 1)], h)
+        cases.append(bitfield_case("dn_%04d" % n, "dbgf", base, [f], helpers=[h], debug=True, name="Wrap", default=(default_spec(0) if base % 16 == 0 else None)))
+        n += 1
+    # field names that begin like generated method names, upper-case names
+    cases.append(bitfield_case("dw_%04d" % n, "dbgf", 32, [uint_field("with_parity", [(0, 3)]), bool_field("set_point", 4), uint_field("with_", [(5, 6)]), uint_field("IRQ_EN", [(7, 8)]), uint_field("TxData", [(9, 12)]),
+                                                          sint_field("get_value", [(16, 23)]), uint_field("with_with_x", [(24, 25)], access="r"), bool_field("r#with", 31) if False else bool_field("withal", 31)], debug=True, name="Prefixes"))
     n += 1
     # aliases: fields with exactly the same bits and type, fields hidden from the documentation, attribute-style docs
     al = [uint_field("status", [(0, 7)], access="r"), uint_field("command", [(0, 7)]), uint_field("data", [(8, 15)]), uint_field("data_again", [(8, 15)], access="r"),
